@@ -23,7 +23,7 @@ func init() {
 			runC05Unique(c)
 			runToStrCases(c, "C05-TOSTRCASES")
 			runC05InList(c)
-			base(c, "DECLARED", "STATE", "ALIAS", "LOOP", "TEXT")
+			base(c, "DECLARED", "STATE", "ALIAS", "LOOP", "TEXT", "RULESRC", "EXPORT", "ZEROSKIP", "FACADE")
 		},
 	})
 }
